@@ -221,6 +221,19 @@ func runC05(ctx *harness.Ctx) {
 		e := es[rapid.IntRange(0, len(es)-1).Draw(t, "entry")]
 		one(t, "generated-relaxed", e, c.Text)
 	})
+	ctx.Rapid("quoted-pseudo-keyword", ctx.Pick(4000, 60000), func(t *rapid.T) {
+		c, ok := drawGenQuotedPKW(t, "", rapid.SampledFrom([]int{1, 2, 2}).Draw(t, "depth"))
+		if !ok {
+			return
+		}
+		es := entriesForKind(c.S.Kind)
+		one(t, "quoted-pseudo-keyword", es[rapid.IntRange(0, len(es)-1).Draw(t, "entry")], c.Text)
+	})
+	ctx.Rapid("generated-long", ctx.Pick(300, 6000), func(t *rapid.T) {
+		c := drawGenLong(t, "", 2)
+		es := entriesForKind(c.S.Kind)
+		one(t, "generated-long", es[rapid.IntRange(0, len(es)-1).Draw(t, "entry")], c.Text)
+	})
 	ctx.Rapid("generated-list", ctx.Pick(1000, 20000), func(t *rapid.T) {
 		n := rapid.IntRange(2, 3).Draw(t, "n")
 		var parts []string
@@ -306,7 +319,17 @@ func oracleC06(ctx *harness.Ctx, cs *harness.Case) (ds []harness.Discrepancy) {
 		r := posEnd(n)
 		if !r.ok || r.pos < 0 || r.end > len(src) || r.pos > r.end {
 			if r.ok {
-				failedB[n] = r // out of range: C05's finding; ancestors sharing the bound are not blamed again
+				// input[Pos:End] does not even exist; ancestors sharing the bad bound are not blamed again
+				inherited := false
+				for _, c := range astx.Children(n) {
+					if cr, bad := failedB[c.Node]; bad && (cr.end == r.end || cr.pos == r.pos) {
+						inherited = true
+					}
+				}
+				failedB[n] = r
+				if !inherited {
+					add("C06 range-not-sliceable "+astx.TypeName(n), fmt.Sprintf("%s at %s has range [%d,%d) on an input of %d bytes", astx.TypeName(n), a.Path, r.pos, r.end, len(src)))
+				}
 			}
 			continue
 		}
